@@ -215,10 +215,36 @@ class Sym(object):
         isd = [And(c >= 48, c <= 57) if not isinstance(c, int) else (48 <= c <= 57) for c in a.c]
         return mkbool(Or(*[And(i + k <= a.n, *isd[i:i + k]) for i in range(a.m - k + 1)]))
 
-    def symbolic_fs(self, entries, root_name="root"):
-        """entries: {relative path: text (file) | None (directory)}; returns (root path, {relative path: exists?})"""
+    def _fs_bits(self, entries, prefix):
+        bits = {}
+        cons = []
+        for i, rel in enumerate(sorted(entries)):
+            t = z3.Bool("in.%s%d" % (prefix, i))
+            bits[rel] = t
+            self.vars["%s%d" % (prefix, i)] = ("bool", t)
+        for rel in sorted(entries):
+            parent = os.path.dirname(rel)
+            if rel and parent in bits and parent != rel:
+                cons.append(z3.Implies(bits[rel], bits[parent]))
+            elif rel and parent == "" and "" in bits:
+                cons.append(z3.Implies(bits[rel], bits[""]))
+        self.I.add_side(cons)
+        return bits
+
+    def fs_change(self):
+        """the stored files change (another arbitrary layout over the same candidate paths); returns the new existence bits"""
+        fs = self.I.options["fs"]
+        self._fs_epoch = getattr(self, "_fs_epoch", 0) + 1
+        bits = self._fs_bits(self._fs_entries, "fse%d_" % self._fs_epoch)
+        fs.new_epoch(bits)
+        return dict((rel, SymBool(bits[rel])) for rel in self._fs_entries)
+
+    def symbolic_fs(self, entries, root_name="root", remote=False):
+        """entries: {relative path: text (file) | None (directory)}; returns (root path or URL, {relative path: exists?})"""
         from . import stubs
-        root = "/psx-symfs/" + root_name
+        root = ("http://psx.invalid/" if remote else "/psx-symfs/") + root_name
+        self._fs_entries = dict(entries)
+        self._fs_epoch = 0
         bits = {}
         cons = []
         for i, rel in enumerate(sorted(entries)):
